@@ -35,11 +35,12 @@
 (* offered | next.return (first of them)  Offer; the other one: stuttering *)
 (*                                        (the two sides of cg.next <- gen)*)
 (* next.call                              AppNext                          *)
-(* next.err, not closed                   ReportErr (application branch),  *)
-(*                                        or stuttering when the run-loop  *)
-(*                                        side was already taken silently  *)
-(* next.err, closed / context cancelled   CloseCall if not yet taken, else *)
-(*                                        stuttering                       *)
+(* cg.errsent | next.err not closed       ReportErr (application branch);  *)
+(*   (first of them)                      the other one: stuttering (the   *)
+(*                                        two sides of cg.errs <- err)     *)
+(* cg.backoff                             Backoff (the timer branch)       *)
+(* cg.done | next.err closed / context    CloseCall; the later one:        *)
+(*   cancelled (first of them)            stuttering                       *)
 (* fn.exit (k, why)                       FnReturn(<<n,k>>, why = "own")   *)
 (*                                        if the function is untracked,    *)
 (*                                        else stuttering (remembered)     *)
@@ -54,32 +55,37 @@
 (* gen.close / gen.closed                 GenCloseBegin / GenCloseEnd      *)
 (* cg.leaving (member)                    Leave (member id non-empty)      *)
 (* coord leave, findcoordinator of leave  stuttering (inside Leave)        *)
-(* close.call                             stuttering: CloseCall becomes    *)
-(*                                        possible (it takes effect inside *)
-(*                                        Close(), after the event)        *)
-(* close.return                           CloseReturn                      *)
+(* close.call                             stuttering (Close is invoked)    *)
+(* close.return                           CloseReturn (cg.done was seen)   *)
 (*                                                                         *)
-(* Silent steps (no event; at most MaxSil between two events):             *)
-(*   ReportErr   run-loop side of `cg.errs <- err` / the cg.done branch    *)
-(*   Backoff     the back-off timer fires                                  *)
-(*   CloseCall   close(cg.done), between close.call and close.return       *)
+(* Silent steps (the code has no observable point for them; at most MaxSil *)
+(* between two events):                                                    *)
+(*   ReportErr   the cg.done branch of select { cg.done ; cg.errs <- err } *)
+(*   Backoff     the cg.done branch of select { cg.done ; back-off timer } *)
 (*   Leave       with memberID = 0: leaveGroup("") returns at once         *)
+(*   CloseCall   only between close.call and the cg.done event and only    *)
+(*               right before a gen.close / cg.leaving of the member: the  *)
+(*               hook fires after close(cg.done), the run loop can act on  *)
+(*               the closed channel before the hook's event is recorded    *)
+(*               (counted as CloseCall_early)                              *)
 (* Forced step: HeartbeatReply(TRUE) right after the HeartbeatSend of an   *)
 (* acknowledged heartbeat (one event = two actions).                       *)
 (*                                                                         *)
 (* Where the code does something the guards of Group.tla exclude, the lax  *)
-(* forms JoinOKx / JoinFailx / HeartbeatSendx of the same actions are      *)
-(* used and counted separately (JoinOK_lax, JoinFail_lax,                  *)
-(* HeartbeatSend_lax): a generation created / a join failing after Close   *)
-(* was called, a heartbeat reaching the coordinator after the context of   *)
-(* its generation ended.  A Next call on a group the model has closed has  *)
-(* no model counterpart (stuttering, s_nextOnClosed).                      *)
+(* forms JoinOKx / JoinFailx / HeartbeatSendx / GenCloseBeginx / Backoffx  *)
+(* of the same actions are used and counted separately (JoinOK_lax,        *)
+(* JoinFail_lax, HeartbeatSend_lax, GenCloseBegin_lax, Backoff_lax): a     *)
+(* generation created / a join failing after Close was called, a heartbeat *)
+(* reaching the coordinator after the context of its generation ended, a   *)
+(* select that takes gen.done / the back-off timer although cg.done is     *)
+(* closed too.  A Next call on a group the model has closed has no model   *)
+(* counterpart (stuttering, s_nextOnClosed).                               *)
 (***************************************************************************)
 EXTENDS Group, Json, IOUtils
 
 Trace == ndJsonDeserialize(IOEnv.TRACE)
 Members == {1, 2}
-MaxSil == 4
+MaxSil == 3
 
 VARIABLES l,      \* next trace line
           me,     \* the member whose projection is validated
@@ -92,9 +98,10 @@ TView == <<vars, l, me, x, pend, sil>>
 
 Names == {"traces", "JoinOK", "JoinOK_lax", "JoinFail", "JoinFail_lax", "JoinWhenClosed", "WatchStart", "Offer", "AppNext",
           "Start", "Start_untracked", "FnReturn", "FnReturn_untracked", "FnReturn_watcher", "HeartbeatSend",
-          "HeartbeatSend_lax", "HeartbeatReply_ok", "HeartbeatReply_fail", "HeartbeatStop", "GenCloseBegin", "GenCloseEnd",
-          "Leave", "Leave_noid", "ReportErr", "ReportErr_closed", "Backoff", "CloseCall", "CloseReturn",
-          "s_join_progress", "s_join_evidence", "s_leave_rpc", "s_offer_other_side", "s_nexterr", "s_next_closed",
+          "HeartbeatSend_lax", "HeartbeatReply_ok", "HeartbeatReply_fail", "HeartbeatStop", "GenCloseBegin", "GenCloseBegin_lax",
+          "GenCloseEnd", "Leave", "Leave_noid", "ReportErr", "ReportErr_closed", "Backoff", "Backoff_lax", "Backoff_closed",
+          "CloseCall", "CloseCall_app", "CloseCall_early", "CloseReturn", "s_err_other_side", "s_done_late",
+          "s_join_progress", "s_join_evidence", "s_leave_rpc", "s_offer_other_side", "s_next_closed",
           "s_nextOnClosed", "s_fnexit", "s_closecall", "s_other"}
 Count(a) == cnt' = [cnt EXCEPT ![a] = @ + 1]
 
@@ -110,8 +117,10 @@ X0(id, mode, tw) ==
    exited |-> {},        \* <<n, k, own>>: application functions that announced their return (fn.exit)
    offer |-> "",         \* side of the Offer rendez-vous already seen: "" | "run" | "app"
    offerGen |-> 0,       \* ... and the generation it handed over
-   errPend |-> "",       \* ReportErr taken on the run-loop side, the application's next.err still to come
+   err |-> "",           \* side of the ReportErr rendez-vous already seen: "" | "run" | "app"
+   errClass |-> "",      \* ... and the class of the error it handed over
    close |-> 0,          \* 0 | 1: close.call seen | 2: CloseCall taken
+   done |-> FALSE,       \* the cg.done event was seen
    leaving |-> 0,        \* 0 | 1: Leave taken, FindCoordinator of leaveGroup expected | 2: LeaveGroup expected
    deadNext |-> FALSE]   \* Next was called on a closed group
 
@@ -266,18 +275,32 @@ NextCallEv ==
   \* Next on a group the model has closed returns ErrGroupClosed at once: no counterpart in the model
   \/ cgdone /\ Stutter /\ x' = [x EXCEPT !.deadNext = TRUE] /\ Count("s_nextOnClosed")
 
+\* the two sides of the rendez-vous `cg.errs <- err` (cg.errsent on the run loop, next.err in the application):
+\* whichever is recorded first takes the step
+ErrEv(side, e) ==
+  IF x.err # "" /\ x.err # side
+    THEN /\ side = "app" => (x.errClass = "rebalance") = (e.code = 27)
+         /\ Stutter /\ x' = [x EXCEPT !.err = ""] /\ Count("s_err_other_side")
+    ELSE /\ x.err = "" /\ rpc = "reporterr"
+         /\ side = "app" => (lastErr = "rebalance") = (e.code = 27)
+         /\ ReportErr /\ rpc' # "leave"
+         /\ x' = [x EXCEPT !.err = side, !.errClass = lastErr] /\ Count("ReportErr")
+
 NextErrEv(e) ==
   IF e.closed
     THEN IF x.close = 1
-           \* the application saw the group closed (or its context cancelled by the closing thread): Close took effect
-           THEN CloseCall /\ x' = [x EXCEPT !.close = 2] /\ Count("CloseCall")
+           \* the application saw the group closed (or its context cancelled by the closing thread, just before
+           \* close(cg.done)) ahead of the cg.done event: Close took effect
+           THEN CloseCall /\ x' = [x EXCEPT !.close = 2] /\ Count("CloseCall_app")
            ELSE /\ x.close = 2 /\ (x.deadNext \/ apc = "idle")
                 /\ Stutter /\ x' = [x EXCEPT !.deadNext = FALSE] /\ Count("s_next_closed")
-    ELSE IF x.errPend # ""
-           THEN /\ (x.errPend = "rebalance") = (e.code = 27)
-                /\ Stutter /\ x' = [x EXCEPT !.errPend = ""] /\ Count("s_nexterr")
-           ELSE /\ rpc = "reporterr" /\ (lastErr = "rebalance") = (e.code = 27)
-                /\ ReportErr /\ rpc' # "leave" /\ UNCHANGED x /\ Count("ReportErr")
+    ELSE ErrEv("app", e)
+
+\* close(cg.done) was executed (the hook fires right after it)
+DoneEv ==
+  /\ ~x.done
+  /\ IF x.close = 1 THEN CloseCall /\ x' = [x EXCEPT !.close = 2, !.done = TRUE] /\ Count("CloseCall")
+     ELSE x.close = 2 /\ Stutter /\ x' = [x EXCEPT !.done = TRUE] /\ Count("s_done_late")
 
 Step(e) ==
   CASE e.ev = "coord" -> CoordEv(e)
@@ -292,15 +315,20 @@ Step(e) ==
     [] e.ev = "gen.fnexit" -> GenFnExitEv(e)
     [] e.ev = "gen.close" ->
          /\ e.gix = gen /\ e.routines = g[gen].routines /\ e.wasClosed = g[gen].closed
-         /\ GenCloseBegin /\ UNCHANGED x /\ Count("GenCloseBegin")
+         /\ GenCloseBeginx(TRUE) /\ UNCHANGED x
+         /\ Count(IF cgdone /\ lastErr' = "none" THEN "GenCloseBegin_lax" ELSE "GenCloseBegin")
     [] e.ev = "gen.closed" -> e.gix = gen /\ GenCloseEnd /\ UNCHANGED x /\ Count("GenCloseEnd")
     [] e.ev = "fn.exit" -> FnExitEv(e)
     [] e.ev = "offered" -> OfferEv("run", e)
     [] e.ev = "next.return" -> OfferEv("app", e)
     [] e.ev = "next.call" -> NextCallEv
     [] e.ev = "next.err" -> NextErrEv(e)
+    [] e.ev = "cg.errsent" -> ErrEv("run", e)
+    [] e.ev = "cg.backoff" ->
+         /\ Backoffx(TRUE) /\ rpc' = "join" /\ UNCHANGED x /\ Count(IF cgdone THEN "Backoff_lax" ELSE "Backoff")
+    [] e.ev = "cg.done" -> DoneEv
     [] e.ev = "close.call" -> x.close = 0 /\ Stutter /\ x' = [x EXCEPT !.close = 1] /\ Count("s_closecall")
-    [] e.ev = "close.return" -> x.close = 2 /\ CloseReturn /\ UNCHANGED x /\ Count("CloseReturn")
+    [] e.ev = "close.return" -> x.close = 2 /\ x.done /\ CloseReturn /\ UNCHANGED x /\ Count("CloseReturn")
     \* start, fn.start, evict, hang, and the legacy gstart/gfnexit/gclose/gclosed copies (GenTrace.tla, GroupMon.tla)
     [] OTHER -> Stutter /\ UNCHANGED x /\ Count("s_other")
 
@@ -319,12 +347,14 @@ Force ==
   /\ HeartbeatReply(TRUE) /\ pend' = Tail(pend)
   /\ UNCHANGED <<l, me, x, sil>> /\ Count("HeartbeatReply_ok")
 
+\* the run loop took the cg.done branch of a select (no hook there), or had no member id to leave with
 Silent ==
-  \/ /\ x.errPend = "" /\ ReportErr /\ rpc' # "leave" /\ x' = [x EXCEPT !.errPend = lastErr] /\ Count("ReportErr")
   \/ /\ ReportErr /\ rpc' = "leave" /\ UNCHANGED x /\ Count("ReportErr_closed")
-  \/ /\ Backoff /\ UNCHANGED x /\ Count("Backoff")
-  \/ /\ x.close = 1 /\ CloseCall /\ x' = [x EXCEPT !.close = 2] /\ Count("CloseCall")
+  \/ /\ cgdone /\ Backoffx(TRUE) /\ rpc' = "exited" /\ UNCHANGED x /\ Count("Backoff_closed")
   \/ /\ rpc = "leave" /\ memberID = 0 /\ Leave /\ UNCHANGED x /\ Count("Leave_noid")
+  \* the run loop acted on the closed cg.done before the event of the cg.done hook was recorded
+  \/ /\ x.close = 1 /\ Mine(Trace[l]) /\ Trace[l].ev \in {"gen.close", "cg.leaving"}
+     /\ CloseCall /\ x' = [x EXCEPT !.close = 2] /\ Count("CloseCall_early")
 
 SilentStep ==
   /\ pend = <<>> /\ l <= Len(Trace) /\ sil < MaxSil /\ x.mode = "cg"
